@@ -33,10 +33,19 @@
       acyclic context-free grammars: C02_HS_full — for every fuel ≥ HS.enoughFuel there is a number of
       `next` steps after which the generator has stopped and its output is a permutation of the
       language;
-  NOT proved: completeness / termination for bucket search and for a positive threshold,
-  no-duplicates with a filter, and everything about the unambiguous-grammar machine (UHeapSearch); they are checked on
-  every generated case against the independent language oracle and by exact correspondence of the
-  model with the implementation.
+    * GENERIC DEVELOPMENT (PS/Proofs/Enum/G*.lean: any priority type whose `combine` is monotone,
+      threshold, filter; the code after fix 53c3acb, `dropDeleted = false`), acyclic context-free grammars:
+        - BUCKET SEARCH, the full statement: for every fuel ≥ HG.enoughFuelF the generator stops and
+          its output is a permutation of the language, C02_HS_bucket_full;
+        - HEAP SEARCH WITH A POSITIVE THRESHOLD: the generator stops, the output is duplicate-free,
+          sound, and contains every member whose probability is above the threshold,
+          C02_HS_threshold_full (completeness at stop for every fuel: C02_HS_threshold_complete);
+        - no duplicates with a filter installed: C02_HS_filter_nodup, C02_HS_bucket_filter_nodup
+          (the liveness half with a filter is in Props/C12_HS.lean).
+  NOT proved: recursive grammars and state-threading TTCFGs (the statement is false there), and
+  everything about the unambiguous-grammar machine (UHeapSearch); they are checked on every generated
+  case against the independent language oracle and by exact correspondence of the model with the
+  implementation.
 -/
 import PS.Model.Enum.HeapSearch
 import PS.Model.Enum.UHeapSearch
@@ -48,6 +57,7 @@ import PS.Proofs.Enum.HSNodupRun
 import PS.Proofs.Enum.HSCompleteCheck
 import PS.Proofs.Enum.HSStops
 import PS.Proofs.Enum.HSPrologueTotal
+import PS.Proofs.Enum.GInst
 namespace PS.C02HS
 open PS PS.G
 
@@ -381,5 +391,97 @@ theorem finding_C02_HS_recursive :
     (take rE2 300 8 (Gen.new rG2) []).map (fun r => (r.2.1.length, r.2.2, r.2.1.contains rLost)) = some (5, true, false) := by
   decide +kernel
 end Reentrant
+
+/-! ### bucket search, threshold, filter (generic development) -/
+section Generic
+open PS.HS PS.HG
+variable {S : Type} [DecidableEq S]
+
+/-- no duplicates with a filter installed (heap search, any threshold, every fuel, every prefix) -/
+theorem C02_HS_filter_nodup (E : Env S Unit Rat) (rank : NT S Unit → Nat) (t : Rat) (P : ProbHyp E rank t)
+    (fuel k : Nat) (g' : Gen S Unit Rat) (out : List Prog) (b : Bool)
+    (h : take E fuel k (Gen.new E.G) [] = some (g', out, b)) : out.Nodup :=
+  (prob_safe P fuel k g' out b h).2.1
+
+/-- no duplicates with a filter installed (bucket search) -/
+theorem C02_HS_bucket_filter_nodup (E : Env S Unit Bucket) (rank : NT S Unit → Nat) (size : Nat)
+    (B : BucketHyp E rank size) (fuel k : Nat) (g' : Gen S Unit Bucket) (out : List Prog) (b : Bool)
+    (h : take E fuel k (Gen.new E.G) [] = some (g', out, b)) : out.Nodup :=
+  (bucket_safe B fuel k g' out b h).2.1
+
+/-- **completeness above the threshold** (heap search with threshold `t`, no filter, every fuel):
+    once the generator has stopped every member of probability `> t` was yielded -/
+theorem C02_HS_threshold_complete (E : Env S Unit Rat) (rank : NT S Unit → Nat) (t : Rat) (P : ProbHyp E rank t)
+    (hf : ∀ p, E.filter p = true) (fuel k : Nat) (g' : Gen S Unit Rat) (out : List Prog)
+    (h : take E fuel k (Gen.new E.G) [] = some (g', out, true)) (p : Prog) (hp : contains E.G p = true)
+    (hthr : t < G.prob E.G E.W p E.G.start ∨ t = 0) : p ∈ out :=
+  prob_stop_complete P fuel k g' out h p (by rw [← contains_eq_gen]; exact hp) (clean_of_all _ hf p) hthr
+
+/-- **heap search with a positive threshold, from scratch**: with enough fuel the generator stops; its
+    output is duplicate-free, contains only members and contains every member of probability above
+    the threshold -/
+theorem C02_HS_threshold_full (E : Env S Unit Rat) (rank : NT S Unit → Nat) (t : Rat) (P : ProbHyp E rank t)
+    (hf : ∀ p, E.filter p = true) (hclosed : HG.Closed E.G) (hstart : E.G.start ∈ AList.keys E.G.rules)
+    (fuel : Nat) (hfuel : enoughFuelF E.G rank ≤ fuel) :
+    ∃ k g' out, take E fuel k (Gen.new E.G) [] = some (g', out, true) ∧ out.Nodup ∧
+      (∀ p ∈ out, contains E.G p = true) ∧
+      (∀ p, contains E.G p = true → (t < G.prob E.G E.W p E.G.start ∨ t = 0) → p ∈ out) := by
+  obtain ⟨k, g', out, h⟩ := prob_total P hclosed hstart fuel hfuel
+  obtain ⟨a, b, _, _⟩ := prob_safe P fuel k g' out true h
+  exact ⟨k, g', out, h, b, fun p hp => by rw [contains_eq_gen]; exact a p hp,
+    fun p hp hthr => C02_HS_threshold_complete E rank t P hf fuel k g' out h p hp hthr⟩
+
+/-- bucket search without a filter, every fuel: once the generator has stopped, the output is
+    duplicate-free and is the language -/
+theorem C02_HS_bucket_exactly_once (E : Env S Unit Bucket) (rank : NT S Unit → Nat) (size : Nat)
+    (B : BucketHyp E rank size) (hf : ∀ p, E.filter p = true) (fuel k : Nat) (g' : Gen S Unit Bucket)
+    (out : List Prog) (h : take E fuel k (Gen.new E.G) [] = some (g', out, true)) :
+    out.Nodup ∧ ∀ p, p ∈ out ↔ contains E.G p = true := by
+  obtain ⟨a, b, _, _⟩ := bucket_safe B fuel k g' out true h
+  refine ⟨b, fun p => ⟨fun hp => by rw [contains_eq_gen]; exact a p hp, fun hp => ?_⟩⟩
+  exact bucket_stop_complete B fuel k g' out h p (by rw [← contains_eq_gen]; exact hp) (clean_of_all _ hf p)
+
+/-- **C02 FOR BUCKET SEARCH ON ACYCLIC CONTEXT-FREE GRAMMARS (full statement)**: for every fuel at
+    least `HG.enoughFuelF` there is a number `k` of `next` steps after which the generator has stopped,
+    and its output is a permutation of the language of the grammar -/
+theorem C02_HS_bucket_full (E : Env S Unit Bucket) (rank : NT S Unit → Nat) (size : Nat)
+    (B : BucketHyp E rank size) (hf : ∀ p, E.filter p = true) (hclosed : HG.Closed E.G)
+    (hstart : E.G.start ∈ AList.keys E.G.rules) (fuel : Nat) (hfuel : enoughFuelF E.G rank ≤ fuel) :
+    ∃ k g' out, take E fuel k (Gen.new E.G) [] = some (g', out, true) ∧
+      out.Perm (lang E.G (rank E.G.start + 1) E.G.start) := by
+  obtain ⟨k, g', out, h⟩ := bucket_total B hclosed hstart fuel hfuel
+  refine ⟨k, g', out, h, ?_⟩
+  obtain ⟨hnd, hmem⟩ := C02_HS_bucket_exactly_once E rank size B hf fuel k g' out h
+  apply (List.perm_ext_iff_of_nodup hnd (lang_nodup E.G B.init.rows _ _)).mpr
+  intro p
+  rw [hmem p, contains_eq_gen]
+  constructor
+  · intro hg; exact mem_membersG E.G rank B.init.rows B.init.acyclic p hg
+  · intro hm; exact gen_of_mem_lang E.G B.init.rows _ p _ hm
+
+/-! non-vacuity on the grammar `cG` -/
+def cEt : Env Nat Unit Rat := { G := cG, W := cW, ops := probOps (1/16), filter := fun _ => true, dropDeleted := false }
+def cEb : Env Nat Unit Bucket := { G := cG, W := cW, ops := bucketOps 3, filter := fun _ => true, dropDeleted := false }
+
+theorem cEt_hyp : ProbHyp cEt cRank (1/16) :=
+  probHyp_of_checks cEt cRank (1/16) rfl (by decide +kernel) (by decide +kernel) (by decide) (by decide) (by decide)
+    (by decide) (by decide +kernel) rfl
+theorem cEb_hyp : BucketHyp cEb cRank 3 :=
+  bucketHyp_of_checks cEb cRank 3 rfl (by decide) (by decide) (by decide) (by decide) (by decide +kernel) rfl
+theorem cG_closed : HG.Closed cG := closed_of_allG cG (by decide)
+
+/-- enough fuel is 2 * (2 + 2 + 5 + 5) = 28 -/
+example : ∃ k g' out, take cEb 28 k (Gen.new cG) [] = some (g', out, true) ∧ out.Perm (lang cG 2 cG.start) :=
+  C02_HS_bucket_full cEb cRank 3 cEb_hyp (fun _ => rfl) cG_closed (by decide) 28 (by decide +kernel)
+
+example : ∃ k g' out, take cEt 28 k (Gen.new cG) [] = some (g', out, true) ∧ out.Nodup ∧
+    (∀ p ∈ out, contains cG p = true) ∧
+    (∀ p, contains cG p = true → ((1/16 : Rat) < G.prob cG cW p cG.start ∨ (1/16 : Rat) = 0) → p ∈ out) :=
+  C02_HS_threshold_full cEt cRank (1/16) cEt_hyp (fun _ => rfl) cG_closed (by decide) 28 (by decide +kernel)
+
+/-- with threshold 1/16 heap search yields 4 of the 5 programs (not `(+ 1 1)`, probability 1/32) and stops -/
+example : (take cEt 28 10 (Gen.new cG) []).map (fun r => (r.2.1.length, r.2.2)) = some (4, true) := by decide +kernel
+example : (take cEb 28 10 (Gen.new cG) []).map (fun r => (r.2.1.length, r.2.2)) = some (5, true) := by decide +kernel
+end Generic
 
 end PS.C02HS
